@@ -13,3 +13,4 @@ CONSTANTS
  Cats <- MCCats
  OkForms <- MCOkForms
  OkPaths <- MCOkPaths
+ Lower <- MCLower
